@@ -703,3 +703,142 @@ Proof.
   - rewrite Hkept, Wn. apply kept_tokens_in. exact Wt.
   - rewrite Wn. exact Hb.
 Qed.
+
+(* the cell of the raw (coded) skip-gram data at the k-th fitted column *)
+Lemma sg_data_cell M w docs i k a b :
+  sg_wf (sg_tokdict M) (sg_radii M) -> (i < length docs)%nat -> nth_error (sg_labels M) k = Some (a, b) ->
+  (k < length (kept_columns (sg_mask M)))%nat /\
+  cell (sg_data (sg_tokdict M) (sg_radii M) w docs) (Z.of_nat i) (nth k (kept_columns (sg_mask M)) 0)
+  = skip_spec (sg_radii M) w (kept (sg_tokdict M) (nth i docs [])) a b.
+Proof.
+  intros [Wn [Hn Wt]] Hi Hk. apply sg_labels_nth in Hk. destruct Hk as [Hk Hd]. split; [exact Hk|].
+  set (tokdict := sg_tokdict M) in *. set (Rs := sg_radii M) in *.
+  set (raw := nth k (kept_columns (sg_mask M)) 0) in *.
+  set (n := Z.of_nat (length tokdict)) in *.
+  pose proof (decode_colcode n raw Hn) as Hdc. rewrite Hd in Hdc. destruct Hdc as [Hcode Hb].
+  rewrite <- Hcode. rewrite <- Wn. unfold sg_data.
+  assert (Hkept : nth i (map (kept tokdict) docs) [] = kept tokdict (nth i docs [])).
+  { change [] with (kept tokdict []) at 1. apply map_nth. }
+  rewrite <- Hkept. apply skip_coo_data_cell.
+  - rewrite map_length. exact Hi.
+  - rewrite Hkept, Wn. apply kept_tokens_in. exact Wt.
+  - rewrite Wn. exact Hb.
+Qed.
+
+Lemma sg_data_in_shape tokdict Rs w docs t :
+  sg_wf tokdict Rs -> In t (sg_data tokdict Rs w docs) ->
+  0 <= trow t < Z.of_nat (length docs) /\ 0 <= tcol t.
+Proof.
+  intros [Wn [Hn Wt]] Ht. unfold sg_data in Ht. apply skip_coo_data_rows in Ht.
+  destruct Ht as [i [u [Hi [Hu ->]]]]. rewrite map_length in Hi.
+  change (trow (Z.of_nat i, colcode (Z.of_nat (length Rs) - 1) (trow u) (tcol u), tval u)) with (Z.of_nat i).
+  change (tcol (Z.of_nat i, colcode (Z.of_nat (length Rs) - 1) (trow u) (tcol u), tval u))
+    with (colcode (Z.of_nat (length Rs) - 1) (trow u) (tcol u)).
+  split; [lia|].
+  assert (HF : Forall (fun t => 0 <= trow t < Z.of_nat (length tokdict) /\ 0 <= tcol t < Z.of_nat (length tokdict))
+                      (build_skip_grams Rs w (nth i (map (kept tokdict) docs) []))).
+  { apply (build_skip_grams_coords (fun x => 0 <= x < Z.of_nat (length tokdict))); [lia|].
+    change [] with (kept tokdict []) at 1. rewrite map_nth. apply kept_tokens_in. exact Wt. }
+  rewrite Forall_forall in HF. specialize (HF u Hu). unfold colcode. rewrite Wn. nia.
+Qed.
+
+Theorem sg_transform_ok M w docs :
+  sg_wf (sg_tokdict M) (sg_radii M) ->
+  exists m, sg_transform M w docs = Ok m /\
+    nrows m = Z.of_nat (length docs) /\
+    ncols m = Z.of_nat (length (kept_columns (sg_mask M))) /\
+    (forall t, In t (entries m) -> 0 <= trow t < nrows m /\ 0 <= tcol t < ncols m) /\
+    (forall i k a b, (i < length docs)%nat -> nth_error (sg_labels M) k = Some (a, b) ->
+       cell (entries m) (Z.of_nat i) (Z.of_nat k)
+       = skip_spec (sg_radii M) w (kept (sg_tokdict M) (nth i docs [])) a b).
+Proof.
+  intros W. unfold sg_transform. fold (sg_data (sg_tokdict M) (sg_radii M) w docs).
+  set (data := sg_data (sg_tokdict M) (sg_radii M) w docs).
+  set (Wd := Z.of_nat (length (sg_mask M))). rewrite map_length.
+  assert (Hshape : Forall (fun t => 0 <= trow t < Z.of_nat (length docs) /\ 0 <= tcol t < Wd)
+                          (filter (fun t => tcol t <? Wd) data)).
+  { apply Forall_forall. intros t Ht. apply filter_In in Ht. destruct Ht as [Ht Hc]. apply Z.ltb_lt in Hc.
+    destruct (sg_data_in_shape _ _ _ _ _ W Ht) as [Hr Hc0]. lia. }
+  rewrite (coo_matrix_shape_ok _ _ _ Hshape). cbn [bind]. unfold mask_cols, ncols at 1; cbn [fst snd].
+  fold Wd. rewrite Z.eqb_refl.
+  eexists. split; [reflexivity|]. unfold select_cols at 1 2, nrows at 1 3, ncols at 1 2; cbn [fst snd].
+  split; [reflexivity|]. split; [reflexivity|]. split.
+  - intros t Ht. apply select_cols_in_range in Ht. destruct Ht as [Hc [u [Hu Hrow]]].
+    unfold entries in Hu; cbn [snd] in Hu. rewrite Forall_forall in Hshape. specialize (Hshape u Hu).
+    split; [rewrite <- Hrow; tauto|exact Hc].
+  - intros i k a b Hi Hk. destruct (sg_data_cell M w docs i k a b W Hi Hk) as [Hk' Hcell].
+    rewrite cell_select_cols by (apply kept_columns_NoDup || exact Hk').
+    unfold entries; cbn [snd]. rewrite cell_filter_cols; [exact Hcell|].
+    apply (kept_columns_range (sg_mask M)), nth_In. exact Hk'.
+Qed.
+
+Theorem sg_transform_strip M w docs :
+  sg_transform M w (map (filter (tok_known (sg_tokdict M))) docs) = sg_transform M w docs.
+Proof.
+  unfold sg_transform. rewrite map_map, !map_length.
+  rewrite (map_ext (fun x => kept (sg_tokdict M) (filter (tok_known (sg_tokdict M)) x)) (kept (sg_tokdict M)));
+    [reflexivity|]. intros doc. apply kept_strip.
+Qed.
+
+Theorem sg_fit_cell' tokdict Rs w docs M tr i k a b :
+  sg_wf tokdict Rs -> sg_fit tokdict Rs w docs = Ok (M, tr) ->
+  (i < length docs)%nat -> nth_error (sg_labels M) k = Some (a, b) ->
+  ncols tr = Z.of_nat (length (sg_labels M)) /\
+  cell (entries tr) (Z.of_nat i) (Z.of_nat k) = skip_spec Rs w (kept tokdict (nth i docs [])) a b.
+Proof.
+  intros W Hfit Hi Hk. split.
+  - apply sg_fit_inv in Hfit. destruct Hfit as [_ [_ [_ [_ [Hc _]]]]]. unfold sg_labels. rewrite map_length. exact Hc.
+  - eapply sg_fit_cell; eassumption.
+Qed.
+
+(* ================= EdgeList: the statements used by Properties ================= *)
+Lemma coo_matrix_Some_inv h w ts m : coo_matrix (Some (h, w)) ts = Ok m -> m = (h, w, ts).
+Proof. unfold coo_matrix. destruct (forallb (in_shape h w) ts); [|discriminate]. intros [= <-]. reflexivity. Qed.
+
+Theorem el_transform_cell M X tr r c i j :
+  el_transform M X = Ok tr -> dict_inj (fst M) -> dict_inj (snd M) ->
+  lookup r (fst M) = Some i -> lookup c (snd M) = Some j -> cell (entries tr) i j = cell X r c.
+Proof.
+  unfold el_transform, el_shape. intros H Hr Hc Li Lj. apply coo_matrix_Some_inv in H. subst tr.
+  unfold entries; cbn [snd]. apply el_cell; assumption.
+Qed.
+
+Theorem el_fit_cell rd cd joint edges M tr r c i j :
+  el_fit rd cd joint edges = Ok (M, tr) -> dict_inj (fst M) -> dict_inj (snd M) ->
+  lookup r (fst M) = Some i -> lookup c (snd M) = Some j -> cell (entries tr) i j = cell edges r c.
+Proof. intros H. apply el_fit_inv in H. destruct H as [_ H]. apply el_transform_cell. exact H. Qed.
+
+Theorem el_transform_C01 M X :
+  el_wf M ->
+  exists m, el_transform M X = Ok m /\ nrows m = dict_dim (fst M) /\ ncols m = dict_dim (snd M) /\
+            (forall t, In t (entries m) -> 0 <= trow t < nrows m /\ 0 <= tcol t < ncols m) /\
+            el_transform M (filter (el_known M) X) = Ok m.
+Proof.
+  intros W. eexists. split; [apply el_transform_ok; exact W|]. unfold nrows, ncols, entries; cbn [fst snd].
+  split; [reflexivity|]. split; [reflexivity|]. split.
+  - pose proof (el_indexed_in_shape M X W) as H. rewrite Forall_forall in H. exact H.
+  - rewrite el_transform_ok by exact W. rewrite el_indexed_strip. reflexivity.
+Qed.
+
+Theorem el_fit_learned joint edges :
+  exists M tr, el_fit None None joint edges = Ok (M, tr) /\ dict_inj (fst M) /\ dict_inj (snd M) /\ el_wf M /\
+    (forall e, In e edges -> exists i j, lookup (trow e) (fst M) = Some i /\ lookup (tcol e) (snd M) = Some j).
+Proof.
+  unfold el_fit, el_dicts. destruct joint; cbn [bind].
+  - set (d := enum_dict (sort_uniq (map trow edges ++ map tcol edges))).
+    assert (W : el_wf (d, d)) by (split; apply enum_dict_nonneg).
+    rewrite (el_transform_ok (d, d) edges W). cbn [bind]. eexists. eexists. split; [reflexivity|]. cbn [fst snd].
+    split; [apply enum_dict_inj|]. split; [apply enum_dict_inj|]. split; [exact W|].
+    intros e He. destruct (learned_lookup (map trow edges ++ map tcol edges) (trow e)) as [i Hi].
+    { apply in_or_app. left. apply in_map. exact He. }
+    destruct (learned_lookup (map trow edges ++ map tcol edges) (tcol e)) as [j Hj].
+    { apply in_or_app. right. apply in_map. exact He. }
+    exists i, j. split; assumption.
+  - set (dr := enum_dict (sort_uniq (map trow edges))). set (dc := enum_dict (sort_uniq (map tcol edges))).
+    assert (W : el_wf (dr, dc)) by (split; apply enum_dict_nonneg).
+    rewrite (el_transform_ok (dr, dc) edges W). cbn [bind]. eexists. eexists. split; [reflexivity|]. cbn [fst snd].
+    split; [apply enum_dict_inj|]. split; [apply enum_dict_inj|]. split; [exact W|].
+    intros e He. destruct (learned_lookup (map trow edges) (trow e)) as [i Hi]; [apply in_map; exact He|].
+    destruct (learned_lookup (map tcol edges) (tcol e)) as [j Hj]; [apply in_map; exact He|].
+    exists i, j. split; assumption.
+Qed.
